@@ -21,7 +21,7 @@ CLASSES = ["box", "extrude", "revolve", "wedge", "cylinder", "semicylinder", "fr
            "chain:cylinder", "chain:elbow", "chain:frustum", "chain:hemisphere", "chain:4", "ring:chain", "ring:expand", "ring:contract",
            "ring:fill", "cyl:expand"]
 REQUIRED = ["judged:jacobians", "judged:connected", "judged:no-duplicate-vertices", "judged:arc-on-circle", "judged:chops-sufficient",
-            "judged:interface", "judged:vertex-count", "judged:sweep-arc-about-the-axis"] + [f"class:{c}" for c in CLASSES]
+            "judged:interface", "judged:vertex-count", "judged:sweep-arc-about-the-axis", "judged:chained-to-a-start-face"] + [f"class:{c}" for c in CLASSES]
 MIN_KEYS = 60
 RULE = (
     "every predefined class (Box, Extrude, Revolve, Wedge, Cylinder, SemiCylinder, Frustum, Elbow, ExtrudedRing, RevolvedRing, "
@@ -41,6 +41,16 @@ def gen_case(ctx):
     rng = ctx.rng
     cls = rng.choice(CLASSES)
     return {"cls": cls, "seed": rng.randrange(10**9), "chop": rng.choice(["count", "size", "size+c2c"])}
+
+
+def fixed_cases(tier):
+    """every chain constructor on the start face and on the end face (the random part reaches a start face only now and then)"""
+    out = []
+    for cls in ("chain:cylinder", "chain:elbow", "chain:frustum", "chain:hemisphere", "ring:chain"):
+        for sf in (True, False):
+            for k in range(2 if tier == "quick" else 12):
+                out.append({"cls": cls, "seed": 7001 + 17 * k + (5 if sf else 0), "chop": ["count", "size"][k % 2], "start_face": sf})
+    return out
 
 
 def chopkw(rng, case, scale=1.0):
@@ -228,7 +238,9 @@ def build(case, cb):
         shapes = [cyl]
         plan = {"chain:cylinder": ["cylinder"], "chain:elbow": ["elbow"], "chain:frustum": ["frustum"], "chain:hemisphere": ["hemisphere"],
                 "chain:4": ["elbow", "frustum", "hemisphere"]}[cls]
-        start_face = rng.random() < 0.3 and len(plan) == 1
+        draw = rng.random() < 0.3
+        start_face = bool(case.get("start_face", draw)) and len(plan) == 1
+        info["start_face"] = start_face
         src = cyl
         for what in plan:
             end_sk = src.sketch_1 if start_face else src.sketch_2
@@ -271,6 +283,8 @@ def build(case, cb):
     info["detail"] = n
     if cls == "ring:chain":
         sf = rng.random() < 0.4
+        sf = bool(case.get("start_face", sf))
+        info["start_face"] = sf
         nxt = cb.ExtrudedRing.chain(ring, rng.uniform(0.5, 2), sf)
         nxt.chop_axial(**kw())
         info["interfaces"].append(("plane", 0, 1, a1 if sf else a2, fr[2]))
@@ -326,7 +340,9 @@ def run_case(ctx, case):
     got, err = util.write_outcome(mesh, path)
     ctx.evaluated()
     ctx.count("judged:chops-sufficient")
-    ctx.key([cls, info["detail"], case["chop"]])
+    if info.get("start_face"):
+        ctx.count("judged:chained-to-a-start-face")
+    ctx.key([cls, info["detail"], case["chop"], bool(info.get("start_face"))])
     ctx.sample({"cls": cls, "seed": case["seed"], "chop": case["chop"], "detail": info["detail"]})
     if got != "success":
         util.rm(path)
